@@ -109,10 +109,16 @@ def _atom_size_from_cursor(blob, cursor) -> Tuple[int, int]:
         bit_count += 1
         b &= 0xFF ^ bit_mask
         bit_mask >>= 1
+    if bit_count > 6:
+        # a length prefix has at most 6 bytes (as in the rust `decode_size`);
+        # 0xfe is the back-reference marker, not a 7-byte length prefix
+        raise ValueError("bad encoding")
     size_blob = bytes([b])
     if bit_count > 1:
         size_blob += blob[cursor + 1:cursor + bit_count]
     size = int.from_bytes(size_blob, "big")
+    if size >= 0x400000000:
+        raise ValueError("blob too large")
     new_cursor = cursor + size + bit_count
     if new_cursor > len(blob):
         raise ValueError("end of stream")
